@@ -2,12 +2,15 @@ package rt
 
 import (
 	"context"
+	"errors"
 	"fmt"
 	"net/http"
 	"sort"
 	"strings"
 
 	"google.golang.org/protobuf/proto"
+
+	sebufhttp "github.com/SebastienMelki/sebuf/http"
 
 	"verif/mc/explore/vsched"
 	"verif/mc/explore/vsync"
@@ -19,13 +22,14 @@ func init() {
 
 // call is one element of the call alphabet.
 type call struct {
-	name    string
-	svc     string
-	method  *JobMethod
-	viaRaw  bool // raw request (no generated client)
-	req     proto.Message
-	opts    CallOpts
-	dropHdr string
+	failHandler bool // the handler answers this call with a plain error
+	name        string
+	svc         string
+	method      *JobMethod
+	viaRaw      bool // raw request (no generated client)
+	req         proto.Message
+	opts        CallOpts
+	dropHdr     string
 }
 
 // obs is what one call observed.
@@ -50,13 +54,23 @@ type world struct {
 	byTh    map[int]*Exchange
 	seen    map[int]string
 	rpc     map[int]string
+	fail    map[int]bool // thread -> the handler fails this call
 }
 
 var c17HeadersOfInterest = []string{"Content-Type", "X-Verif-Call", "X-Tenant", "X-Trace", "X-Beta", "X-Api-Key", "X-Request-Id"}
 
 func newWorld(u *JobUnit) (*world, error) {
-	w := &world{clients: map[string]Client{}, byTh: map[int]*Exchange{}, seen: map[int]string{}, rpc: map[int]string{}}
-	f, err := newFixture(u.Name, nil)
+	w := &world{clients: map[string]Client{}, byTh: map[int]*Exchange{}, seen: map[int]string{}, rpc: map[int]string{}, fail: map[int]bool{}}
+	// a selective error hook, as the ErrorHandler documentation allows: validation failures get a status of the hook's choosing
+	// (no body written, no message returned), every other error is left to the defaults
+	hook := func(rw http.ResponseWriter, r *http.Request, err error) proto.Message {
+		var ve *sebufhttp.ValidationError
+		if errors.As(err, &ve) {
+			rw.WriteHeader(422)
+		}
+		return nil
+	}
+	f, err := newFixture(u.Name, hook)
 	if err != nil {
 		return nil, err
 	}
@@ -89,6 +103,7 @@ func (w *world) do(u *JobUnit, c *call, slot int) obs {
 	var o obs
 	th := vsched.Current()
 	delete(w.byTh, th)
+	w.fail[th] = c.failHandler
 	if c.viaRaw {
 		target, body := RenderRequest(c.method, c.req)
 		hdr := http.Header{"Content-Type": {"application/json"}}
@@ -159,6 +174,9 @@ func c17Alphabet(u *JobUnit) ([]*call, error) {
 			}
 			n++
 			out = append(out, &call{name: fmt.Sprintf("%s.%s/plain", js.Name, m.Name), svc: js.Name, method: m, req: valid, opts: CallOpts{Headers: methHdr}})
+			if mi == 0 {
+				out = append(out, &call{name: fmt.Sprintf("%s.%s/handler-error", js.Name, m.Name), svc: js.Name, method: m, req: valid, opts: CallOpts{Headers: methHdr}, failHandler: true})
+			}
 			out = append(out, &call{name: fmt.Sprintf("%s.%s/percall-header+proto", js.Name, m.Name), svc: js.Name, method: m, req: valid,
 				opts: CallOpts{ContentType: "application/x-protobuf", Headers: append(append([]KV(nil), methHdr...), KV{"X-Verif-Call", fmt.Sprintf("c%d", n)})}})
 			// a second valid value so that requests of concurrent calls differ
@@ -229,6 +247,9 @@ func c17Unit(j *Job, u *JobUnit) error {
 			th := vsched.Current()
 			w.seen[th] = protoText(req)
 			w.rpc[th] = method
+			if w.fail[th] {
+				return nil, fmt.Errorf("handler failed for %s", method)
+			}
 			// response: the default message of the output type (content does not matter, identity of the call does)
 			for _, js := range u.Services {
 				for _, m := range js.Methods {
@@ -319,7 +340,7 @@ func c17Unit(j *Job, u *JobUnit) error {
 			switch {
 			case len(x.Races) > 0:
 				r := x.Races[0]
-				t.viol(cell, "race("+r.ID+")", fmt.Sprintf("threads %d (%s, write=%v) and %d (%s, write=%v) have unordered conflicting accesses to %s | schedule %s",
+				t.viol(cell, "race("+strings.SplitN(r.ID, "@", 2)[0]+")", fmt.Sprintf("threads %d (%s, write=%v) and %d (%s, write=%v) have unordered conflicting accesses to %s | schedule %s",
 					r.A, names[r.A], r.AWrite, r.B, names[r.B], r.BWrite, r.ID, sched), []string{sched})
 				t.hit(cellBase, "race", true)
 				return false
